@@ -2,7 +2,7 @@
 
 Generated: class hierarchies as source text - OvldBase / metaclass=OvldMC roots, depth <= 3, multiple bases,
 mixin classes without the metaclass (one plain definition), per class 0-4 same-named definitions `f` with an
-optional @extend_super on the first one and @ovld(priority=...) on others; bodies log `self`, and some use
+optional @extend_super on one of them (any position) and @ovld(priority=...) on others; bodies log `self`, and some use
 recurse (list walker) or call_next.  Instances of every class are probed right after the class is created and
 again after all later classes exist.
 Model of the documented rules: >= 2 same-named definitions merge; @extend_super on the first definition pulls
@@ -126,7 +126,9 @@ def case_strategy():
                 defs = []  # a single undecorated definition stays a plain function: not generated
             marked = (not mc) and bool(defs) and draw(st.integers(0, 3)) > 0  # a mixin class announcing `@extend_super`
             classes.append({"id": i, "mc": mc, "bases": bases, "defs": defs, "ext": ext and bool(defs), "marked": marked,
-                            "style": draw(st.sampled_from(["OvldBase", "metaclass"]))})
+                            "style": draw(st.sampled_from(["OvldBase", "metaclass"])),
+                            # which of the same-named definitions carries the marker (any of them may)
+                            "mark_at": draw(st.integers(0, len(defs) - 1)) if (ext and defs and draw(st.integers(0, 2)) == 0) else 0})
         return {"classes": classes}
 
     return _case()
@@ -155,7 +157,7 @@ def render_class(c, classes):
     lines.append(f"    tag = {c['id']}")
     decorated = any(m.get("prio") for m in c["defs"])
     for j, m in enumerate(c["defs"]):
-        if (c["ext"] or c.get("marked")) and j == 0:
+        if (c["ext"] and j == (c.get("mark_at", 0) if not decorated else 0)) or (c.get("marked") and not c["ext"] and j == 0):
             lines.append("    @extend_super")
         elif m.get("also_marked") and not decorated:
             lines.append("    @extend_super")
